@@ -207,7 +207,8 @@ def _gen_verify(rng):
             'txTo': _gen_tx(rng, min_in=1), 'inIdx': 0, 'flags': _gen_flags(rng)}
 
 
-_replay.GENERATORS.update({'evalscript_contained': _gen_eval, 'evalscript_wrapped': _gen_eval,
+_replay.GENERATORS.update({'cast_to_bool_c': lambda rng: {'s': {'__bytes__': [rng.choice([0, 0, 0x80, 1, 0x80, 0xff]) for _ in range(rng.randint(0, 5))], 'cls': 'builtins:bytes'}},
+                           'evalscript_contained': _gen_eval, 'evalscript_wrapped': _gen_eval,
                            'verifyscript_contained': _gen_verify})
 
 
